@@ -3,6 +3,7 @@
   model on them, timing of `_on_data`, the announcer's cycle.
 -/
 import Upnp.Lemmas.C13Compose
+import Upnp.Lemmas.C13Requester
 import Upnp.Model.C13Run
 namespace Upnp.C13
 
@@ -133,46 +134,155 @@ theorem response_entry {t : DevTree} (hw : WF t) (ar : Bool) (st : Str) {m : Msg
   obtain ⟨hst, husn⟩ := ne_nil_of_normKey (a := m.st) (u := m.usn) hek.symm heok.st
   exact ⟨e, he, heok, husn, hst, hek⟩
 
-theorem okSearch_run {k : Consts} (hk : ConstsOk k) {t : DevTree} (hw : WF t) (cfg : Cfg)
+theorem answer_not_msearch (k : Consts) (t : DevTree) (now : Int) (r : Req) (sel : Option Nat)
+    (h : isMSearch r = false) : answer k t now r sel = some [] := by
+  have hc : r.line ≠ mSearchLine ∨ r.man ≠ some ssdpDiscover := by
+    by_cases h1 : r.line = mSearchLine
+    · right; intro h2; simp [isMSearch, h1, h2] at h
+    · left; exact h1
+  unfold answer onData
+  rw [if_pos hc]
+
+theorem keyL_of_normKey (ci : Bool) (a u : Str) :
+    (fun p : Str × Str => (lower p.1, p.2)) (normKey ci a u) = keyL a u := by
+  cases ci <;> simp [normKey, keyL, lower_lower]
+
+/-- what one M-SEARCH of a model run puts on the response socket -/
+theorem sendsOf_spec {k : Consts} (hk : ConstsOk k) {t : DevTree} (hw : WF t) (cfg : Cfg)
     (hl : validLocation cfg.location = true) (target : Str) (searches : List SearchIn) (ann : Option AnnIn)
-    (i : SearchIn) :
-    okSearch (runCase k cfg target t searches ann) (runSearch k cfg t i) = true := by
-  unfold okSearch
-  by_cases hr : isMSearch i.req = true
-  · obtain ⟨sends, hans, hmsgs, htime⟩ := answer_spec hk t i.time i.req i.sel hr
-    have hperm := dispatch_perm hw k.alwaysRoot (i.req.st.getD [])
-    simp only [runSearch, runCase, hans, Option.isNone_some, Option.getD_some, Bool.not_false, Bool.true_and,
-      Bool.or_eq_true, Bool.not_eq_true']
-    right
+    (i : SearchIn) (hr : isMSearch i.req = true) :
+    (runSearch k t i).raised = false ∧
+    ((sendsOf k cfg t i).map fun m => keyL m.st m.usn).Perm
+      (expKeysL (runCase k cfg target t searches ann) (runSearch k t i)) ∧
+    ∀ m ∈ sendsOf k cfg t i, i.time ≤ m.time ∧ m.time ≤ windowEnd (runSearch k t i) ∧
+      m.startLine = okLine ∧ m.nts = [] ∧ m.location = cfg.location ∧
+      accounts (runCase k cfg target t searches ann) (runSearch k t i) m = true := by
+  obtain ⟨sends, hans, hmsgs, htime⟩ := answer_spec hk t i.time i.req i.sel hr
+  have hperm := dispatch_perm hw k.alwaysRoot (i.req.st.getD [])
+  have hexp : expOf (runCase k cfg target t searches ann) (runSearch k t i)
+      = expected t k.alwaysRoot (i.req.st.getD []) := rfl
+  refine ⟨by simp [runSearch, hans], ?_, ?_⟩
+  · have := hperm.map (fun p : Str × Str => (lower p.1, p.2))
+    rw [← hmsgs] at this
+    simp only [List.map_map] at this
+    simp only [sendsOf, hans, Option.getD_some, List.map_map, expKeysL, hexp]
+    refine (List.Perm.of_eq ?_).trans (this.trans (List.Perm.of_eq ?_))
+    · apply List.map_congr_left; intro s _
+      simp [Function.comp_def, msgKey, obsResponse, keyL_of_normKey]
+    · apply List.map_congr_left; intro e _
+      simp [Function.comp_def, expKey, keyL_of_normKey]
+  · intro m hm
+    simp only [sendsOf, hans, Option.getD_some, List.mem_map] at hm
+    obtain ⟨s, hs, rfl⟩ := hm
+    obtain ⟨ht1, ht2⟩ := htime s hs
     rcases hE : expected t k.alwaysRoot (i.req.st.getD []) with ⟨exp, ci⟩
     rw [hE] at hperm
-    simp only at hperm ⊢
-    rw [Bool.and_eq_true]
-    constructor
-    · rw [List.isPerm_iff]
-      simp only [List.map_map]
-      rw [← hmsgs, List.map_map] at hperm
-      exact hperm
-    · rw [List.all_eq_true]
+    simp only at hperm
+    have hkey : msgKey ci s.msg ∈ (buildResponses t k.alwaysRoot (i.req.st.getD [])).map (msgKey ci) := by
+      rw [← hmsgs, List.map_map]; exact List.mem_map.mpr ⟨s, hs, rfl⟩
+    obtain ⟨e, he, hek⟩ := List.mem_map.mp (hperm.mem_iff.mp hkey)
+    have heok : ExpOk e := expected_ok hw k.alwaysRoot (i.req.st.getD []) e (by rw [hE]; exact he)
+    obtain ⟨hst, husn⟩ := ne_nil_of_normKey (a := s.msg.st) (u := s.msg.usn) hek.symm heok.st
+    refine ⟨ht1, ht2, rfl, rfl, rfl, ?_⟩
+    unfold accounts
+    rw [hexp, hE]
+    have hr' : isMSearch (runSearch k t i).req = true := hr
+    simp only [hr', Bool.and_eq_true, beq_iff_eq, decide_eq_true_eq, List.any_eq_true, true_and]
+    refine ⟨⟨⟨rfl, ht1⟩, ht2⟩, e, he, ⟨hek, ?_⟩, ?_⟩
+    · show startsWith s.msg.usn e.dev = true
+      rw [husn]; exact heok.usn_prefix
+    · simp only [heardOk, obsResponse, hearResponse_ok heok cfg husn hst hl]
+      simp [runCase]
+
+theorem filter_responses (k : Consts) (cfg : Cfg) (t : DevTree) (r : Str) : ∀ (searches : List SearchIn),
+    (searches.flatMap (sendsOf k cfg t)).filter (·.dest == r)
+      = (searches.filter (·.requester == r)).flatMap (sendsOf k cfg t) := by
+  intro searches
+  induction searches with
+  | nil => rfl
+  | cons i l ih =>
+    simp only [List.flatMap_cons, List.filter_append, ih, List.filter_cons]
+    have hd : ∀ m ∈ sendsOf k cfg t i, m.dest = i.requester := by
       intro m hm
-      simp only [List.mem_map] at hm
-      obtain ⟨s, hs, rfl⟩ := hm
-      obtain ⟨ht1, ht2⟩ := htime s hs
-      -- the table entry this message realises
-      have hkey : msgKey ci s.msg ∈ (buildResponses t k.alwaysRoot (i.req.st.getD [])).map (msgKey ci) := by
-        rw [← hmsgs, List.map_map]; exact List.mem_map.mpr ⟨s, hs, rfl⟩
-      have hkey' := hperm.mem_iff.mp hkey
-      obtain ⟨e, he, hek⟩ := List.mem_map.mp hkey'
-      have heok : ExpOk e := by
-        have := expected_ok hw k.alwaysRoot (i.req.st.getD []) e (by rw [hE]; exact he)
-        exact this
-      obtain ⟨hst, husn⟩ := ne_nil_of_normKey (a := s.msg.st) (u := s.msg.usn) hek.symm heok.st
-      simp only [obsResponse, Bool.and_eq_true, beq_iff_eq, decide_eq_true_eq, List.any_eq_true, beq_self_eq_true,
-        true_and, List.isEmpty_nil, and_true]
-      refine ⟨⟨decide_eq_true ht1, decide_eq_true ht2⟩, e, he, ⟨hek, ?_⟩, ?_⟩
-      · rw [husn]; exact heok.usn_prefix
-      · rw [hearResponse_ok heok cfg husn hst hl]
-        simp [heardOk]
-  · simp only [runSearch, Bool.or_eq_true, Bool.not_eq_true']; left; simpa using hr
+      simp only [sendsOf, List.mem_map] at hm
+      obtain ⟨s, _, rfl⟩ := hm; rfl
+    by_cases h : (i.requester == r) = true
+    · rw [if_pos h, List.flatMap_cons]
+      congr 1
+      rw [List.filter_eq_self]
+      intro m hm; rw [hd m hm]; exact h
+    · rw [if_neg h]
+      have : (sendsOf k cfg t i).filter (·.dest == r) = [] := by
+        rw [List.filter_eq_nil_iff]
+        intro m hm; rw [hd m hm]; exact h
+      rw [this]; rfl
+
+/-- **the searches of a model run satisfy the judge**, however many of them share a requester -/
+theorem okResponses_run {k : Consts} (hk : ConstsOk k) {t : DevTree} (hw : WF t) (cfg : Cfg)
+    (hl : validLocation cfg.location = true) (target : Str) (searches : List SearchIn) (ann : Option AnnIn) :
+    okResponses (runCase k cfg target t searches ann) = true := by
+  have hs : (runCase k cfg target t searches ann).searches = searches.map (runSearch k t) := rfl
+  have hrs : (runCase k cfg target t searches ann).responses = searches.flatMap (sendsOf k cfg t) := rfl
+  unfold okResponses
+  rw [Bool.and_eq_true, Bool.and_eq_true]
+  refine ⟨⟨?_, ?_⟩, ?_⟩
+  · rw [List.all_eq_true]
+    intro s hsm
+    rw [hs] at hsm
+    obtain ⟨i, _, rfl⟩ := List.mem_map.mp hsm
+    by_cases hr : isMSearch i.req = true
+    · have := (sendsOf_spec hk hw cfg hl target searches ann i hr).1
+      simp [runSearch] at this ⊢
+      right; simpa [runSearch] using this
+    · simp only [Bool.or_eq_true, Bool.not_eq_true']; left
+      simpa [runSearch] using hr
+  · rw [List.all_eq_true]
+    intro m hm
+    rw [hrs] at hm
+    obtain ⟨i, hi, hmi⟩ := List.mem_flatMap.mp hm
+    by_cases hr : isMSearch i.req = true
+    · obtain ⟨_, _, hall⟩ := sendsOf_spec hk hw cfg hl target searches ann i hr
+      obtain ⟨_, _, h3, h4, h5, h6⟩ := hall m hmi
+      simp only [Bool.or_eq_true, Bool.and_eq_true, beq_iff_eq, List.any_eq_true]
+      right
+      refine ⟨⟨⟨h3, by rw [h4]; rfl⟩, by rw [h5]; rfl⟩, runSearch k t i, ?_, h6⟩
+      rw [hs]; exact List.mem_map.mpr ⟨i, hi, rfl⟩
+    · have hr' : isMSearch i.req = false := by simpa using hr
+      have : sendsOf k cfg t i = [] := by
+        simp [sendsOf, answer_not_msearch k t i.time i.req i.sel hr']
+      rw [this] at hmi; exact absurd hmi (by simp)
+  · rw [List.all_eq_true]
+    intro s hsm
+    rw [hs] at hsm
+    obtain ⟨i0, _, rfl⟩ := List.mem_map.mp hsm
+    generalize hrq : (runSearch k t i0).requester = r
+    by_cases hbad : ∃ j ∈ searches, j.requester = r ∧ isMSearch j.req = false
+    · obtain ⟨j, hj, hjr, hjm⟩ := hbad
+      simp only [Bool.or_eq_true, List.any_eq_true, Bool.and_eq_true, beq_iff_eq, Bool.not_eq_true']
+      left
+      exact ⟨runSearch k t j, by rw [hs]; exact List.mem_map.mpr ⟨j, hj, rfl⟩, hjr, hjm⟩
+    · simp only [Bool.or_eq_true]; right
+      have hgood : ∀ j ∈ searches.filter (·.requester == r), isMSearch j.req = true := by
+        intro j hj
+        have := List.mem_filter.mp hj
+        cases hm : isMSearch j.req with
+        | true => rfl
+        | false => exact absurd ⟨j, this.1, by simpa using this.2, hm⟩ hbad
+      unfold okRequester
+      rw [hs, hrs, List.filter_map, filter_responses, List.map_map, List.map_flatMap]
+      simp only [Function.comp_def]
+      have hcore := okRequester_core (searches.filter (·.requester == r)) (fun i => i.time)
+        (fun i => windowEnd (runSearch k t i))
+        (fun i => expKeysL (runCase k cfg target t searches ann) (runSearch k t i))
+        (fun i => (sendsOf k cfg t i).map fun m => (keyL m.st m.usn, m.time))
+        (fun i hi => by
+          have := (sendsOf_spec hk hw cfg hl target searches ann i (hgood i hi)).2.1
+          simpa [List.map_map, Function.comp_def] using this)
+        (fun i hi m hm => by
+          obtain ⟨m', hm', rfl⟩ := List.mem_map.mp hm
+          have := (sendsOf_spec hk hw cfg hl target searches ann i (hgood i hi)).2.2 m' hm'
+          exact ⟨this.1, this.2.1⟩)
+      simp only [runSearch] at hcore ⊢
+      exact hcore
 
 end Upnp.C13
